@@ -869,7 +869,14 @@ class Context:
 
         def fromCharCode_fn(*args):
             """String.fromCharCode - create string from char codes."""
-            return "".join(chr(int(to_number(arg))) for arg in args)
+            # each argument is converted with ToUint16 (NaN and infinities give 0)
+            units = []
+            for arg in args:
+                n = to_number(arg)
+                if math.isnan(n) or math.isinf(n):
+                    n = 0
+                units.append(chr(int(n) & 0xFFFF))
+            return "".join(units)
 
         string_constructor.set("fromCharCode", fromCharCode_fn)
 
